@@ -325,3 +325,36 @@ func StrictEqual(a, b interface{}) bool {
 	}
 	return false
 }
+
+// JSONImage is the value obtained by writing v as JSON (encoding/json) and reading it
+// back into interface{}: every number becomes float64, a time its RFC 3339 text.
+func JSONImage(v interface{}) interface{} {
+	switch x := v.(type) {
+	case int64:
+		return float64(x)
+	case uint64:
+		return float64(x)
+	case time.Time:
+		return x.Format(time.RFC3339Nano)
+	case []interface{}:
+		a := make([]interface{}, len(x))
+		for i, e := range x {
+			a[i] = JSONImage(e)
+		}
+		return a
+	case map[string]interface{}:
+		m := make(map[string]interface{}, len(x))
+		for k, e := range x {
+			m[k] = JSONImage(e)
+		}
+		return m
+	case Doc:
+		return JSONImage(map[string]interface{}(x))
+	}
+	return v
+}
+
+// JSONImageDoc applies JSONImage to a document.
+func JSONImageDoc(d Doc) Doc {
+	return Doc(JSONImage(map[string]interface{}(d)).(map[string]interface{}))
+}
